@@ -1,3 +1,5 @@
+//go:build c20 || allprops
+
 package main
 
 import (
